@@ -7,7 +7,7 @@ READ_SIZE.  Every table entry is visited systematically.          DESIGN.md 8b.
 import random
 
 from sim import setup, plan as planmod
-from sim.world import HarnessError, StepCap, Quiescent
+from sim.world import environment_artefact, HarnessError, StepCap, Quiescent
 
 PROP = "C03"
 LEVEL = "exploration"
@@ -75,7 +75,12 @@ def _tables():
     for k in allk:
         for i in range(1, len(k)):
             prefixes.add(k[:i])
-    _T.update({"cu": cu, "cs": cs, "all": allk, "prefixes": prefixes,
+    rcu, rcs = {}, {}
+    for k_, v_ in cu.items():
+        rcu.setdefault(v_, []).append(k_)
+    for k_, v_ in cs.items():
+        rcs.setdefault(v_, []).append(k_)
+    _T.update({"cu": cu, "cs": cs, "all": allk, "prefixes": prefixes, "rev_curtsies": rcu, "rev_curses": rcs,
                "prefix_keys": [k for k in allk if k in prefixes],
                "plain_keys": [k for k in allk if k not in prefixes]})
     return _T
@@ -255,96 +260,135 @@ def run_plan(p, keep_log=False):
         out["nontrivial"] = True
         return out
     enc = p["cfg"]["encoding"]
-    base = runs["bytes"]
-    items = base["items"]
-    # ---- (1) conservation --------------------------------------------------------------------
-    stream = base["stream"]
-    got = b"".join(items)
-    tail = base["left_in_buffer"]
-    if got + tail != stream:
-        out["violation"] = {"invariant": "bytes_lost_duplicated_or_reordered", "step": 0,
-                            "detail": {"stream": repr(stream[:80]), "returned": repr(got[:80]), "kept": repr(tail)}}
-        return out
-    # ---- (3) one event per unit in situations (a)/(b) -------------------------------------------
-    bounds = set()
-    off = 0
-    for it in items:
-        off += len(it)
-        bounds.add(off)
-    item_at = {}
-    off = 0
-    for i, it in enumerate(items):
-        item_at[off] = i
-        off += len(it)
-    reads = base["read_bounds"]
     probes = out["probes"]
-    for u in base["units"]:
-        s, e, special, followed, in_split = u["s"], u["e"], u["special"], u["followed"], u["split"]
-        cut = in_split or any(s < r < e for r in reads)
-        b = stream[s:e]
-        cls = _unit_class(b, enc, t)
-        if cut:
-            sit = "c"
-            probes["situation_c_split" if in_split else "situation_c_read_size"] = probes.get(
-                "situation_c_split" if in_split else "situation_c_read_size", 0) + 1
-            out["faults"]["split_arrival" if in_split else "read_boundary_split"] = out["faults"].get(
-                "split_arrival" if in_split else "read_boundary_split", 0) + 1
-        elif e in reads:
-            sit = "a"
-            probes["situation_a"] = probes.get("situation_a", 0) + 1
-            if special:
-                probes["prefix_key_at_read_end" if b in t["prefixes"] else "meta_byte_at_read_end"] = probes.get(
-                    "prefix_key_at_read_end" if b in t["prefixes"] else "meta_byte_at_read_end", 0) + 1
-        else:
-            sit = "b"
-            probes["situation_b"] = probes.get("situation_b", 0) + 1
-        probes[cls] = probes.get(cls, 0) + 1
-        out["states"].add("%s|%s|%s" % (enc, sit, cls))
-        if cls.startswith("table"):
-            out["states"].add("E|%s|%s|%s" % (enc, sit, b.hex()))
-            nb = stream[e:e + 8]
-            if sit == "b" and nb:
-                for ln in range(min(7, len(nb)), 0, -1):
-                    if bytes(nb[:ln]) in t["cu"] or bytes(nb[:ln]) in t["cs"]:
-                        out["pairs"].add(hash((b, bytes(nb[:ln]))) & 0xFFFFFFFFFFFF)
-                        break
-        if sit == "c" or followed or u["after_followed"]:
-            continue
-        if special and sit != "a":
-            continue
-        i = item_at.get(s)
-        if i is None or items[i] != b:
-            out["violation"] = {"invariant": "unit_broken_up_or_merged", "step": 0,
-                                "detail": {"unit": repr(b), "situation": sit, "encoding": enc,
-                                           "items_around": [repr(x) for x in items[max(0, (i or 0) - 1):(i or 0) + 3]],
-                                           "context": repr(stream[max(0, s - 4):e + 6])}}
+    for mode in ("bytes", "curtsies", "curses"):
+        v = _judge_mode(mode, runs[mode], enc, t, out, count_probes=(mode == "bytes"))
+        if v is not None:
+            out["violation"] = v
             return out
-    # ---- (4) + names: every naming mode cuts at the same places and names each keypress per the tables ----
-    for mode in ("curtsies", "curses"):
-        r = runs[mode]
-        names = r["items"]
-        if len(names) != len(items) or r["left_in_buffer"] != tail:
-            out["violation"] = {"invariant": "naming_modes_cut_differently", "step": 0,
-                                "detail": {"mode": mode, "bytes_mode_items": [repr(x) for x in items[:12]],
-                                           "this_mode_items": [repr(x) for x in names[:12]]}}
-            return out
-        off = 0
-        for i, (b, n) in enumerate(zip(items, names)):
-            exp = _expected_name(mode, b, enc, t)
-            unit_ok = any(u["s"] == off and u["e"] == off + len(b) and not u["split"] for u in base["units"])
-            off += len(b)
-            if exp is None:
-                continue
-            if n != exp:
-                out["violation"] = {"invariant": "keypress_misnamed", "step": i,
-                                    "detail": {"mode": mode, "bytes": repr(b), "returned": repr(n), "expected": repr(exp),
-                                               "whole_unit": unit_ok, "encoding": enc}}
-                return out
     out["states"].update("P|%x" % h for h in out["pairs"])
     out["nontrivial"] = any(probes.get(k) for k in ("situation_c_read_size", "situation_c_split", "prefix_key_at_read_end",
                                                     "meta_byte_at_read_end", "utf8_len2", "utf8_len3", "utf8_len4",
                                                     "table_esc_unit"))
     return out
+
+
+def _spans(mode, items, stream, enc, t):
+    """byte span of every returned keypress: in bytes mode the item itself; in a naming mode the byte strings
+    that name can stand for (reverse table, the character's encoding, curses' xNN form), matched against the
+    stream.  Returns (spans, None) or (None, index of the first item that matches nothing)."""
+    spans, pos = [], 0
+    rev = t["rev_" + mode] if mode != "bytes" else None
+    for i, it in enumerate(items):
+        if mode == "bytes":
+            cands = [it] if isinstance(it, bytes) else []
+        else:
+            cands = list(rev.get(it, ())) if isinstance(it, str) else []
+            if isinstance(it, str):
+                try:
+                    cands.append(it.encode(enc))
+                except UnicodeError:
+                    pass
+                if mode == "curses" and len(it) == 3 and it[0] == "x":
+                    try:
+                        cands.append(bytes([int(it[1:], 16)]))
+                    except ValueError:
+                        pass
+        hit = None
+        for c in sorted(set(cands), key=len, reverse=True):
+            if c and stream[pos:pos + len(c)] == c:
+                hit = c
+                break
+        if hit is None:
+            return None, i
+        spans.append((pos, pos + len(hit)))
+        pos += len(hit)
+    return spans, None
+
+
+def _judge_mode(mode, r, enc, t, out, count_probes):
+    """the statement, applied to one naming mode's run on its own"""
+    items, stream, reads = r["items"], r["stream"], r["read_bounds"]
+    spans, bad = _spans(mode, items, stream, enc, t)
+    if spans is None:
+        return {"invariant": "bytes_lost_duplicated_or_reordered", "step": bad,
+                "detail": {"mode": mode, "item": repr(items[bad]), "items_before": [repr(x) for x in items[max(0, bad - 3):bad]],
+                           "stream": repr(stream[:80])}}
+    covered = spans[-1][1] if spans else 0
+    if covered != len(stream):
+        return {"invariant": "bytes_lost_duplicated_or_reordered", "step": len(items),
+                "detail": {"mode": mode, "returned_bytes": covered, "stream_bytes": len(stream),
+                           "note": "every arrival was delivered completely and ends with a whole key: nothing may be held back"}}
+    # asks for more input only while the bytes so far can still grow: once an arrival that ends with a whole
+    # key has been fetched, everything that arrived has been returned
+    for nitems, slen in r["fetched"]:
+        got = spans[nitems - 1][1] if nitems else 0
+        if got != slen:
+            return {"invariant": "asked_for_more_input_needlessly", "step": nitems,
+                    "detail": {"mode": mode, "returned_bytes": got, "arrived_bytes": slen,
+                               "held_back": repr(stream[got:slen])}}
+    start_of = {a: i for i, (a, b) in enumerate(spans)}
+    probes = out["probes"]
+    table = {"bytes": None, "curtsies": t["cu"], "curses": t["cs"]}[mode]
+    for u in r["units"]:
+        s_, e_, special, followed, in_split = u["s"], u["e"], u["special"], u["followed"], u["split"]
+        cut = in_split or any(s_ < x < e_ for x in reads)
+        b = stream[s_:e_]
+        cls = _unit_class(b, enc, t)
+        sit = "c" if cut else "a" if e_ in reads else "b"
+        if count_probes:
+            if cut:
+                k = "situation_c_split" if in_split else "situation_c_read_size"
+                probes[k] = probes.get(k, 0) + 1
+                fk = "split_arrival" if in_split else "read_boundary_split"
+                out["faults"][fk] = out["faults"].get(fk, 0) + 1
+            else:
+                probes["situation_" + sit] = probes.get("situation_" + sit, 0) + 1
+                if sit == "a" and special:
+                    k = "prefix_key_at_read_end" if b in t["prefixes"] else "meta_byte_at_read_end"
+                    probes[k] = probes.get(k, 0) + 1
+            probes[cls] = probes.get(cls, 0) + 1
+            out["states"].add("%s|%s|%s" % (enc, sit, cls))
+            if cls.startswith("table"):
+                out["states"].add("E|%s|%s|%s" % (enc, sit, b.hex()))
+                nb = stream[e_:e_ + 8]
+                if sit == "b" and nb:
+                    for ln in range(min(7, len(nb)), 0, -1):
+                        if bytes(nb[:ln]) in t["cu"] or bytes(nb[:ln]) in t["cs"]:
+                            out["pairs"].add(hash((b, bytes(nb[:ln]))) & 0xFFFFFFFFFFFF)
+                            break
+        if sit == "c" or followed or u["after_followed"]:
+            continue
+        if special and sit != "a":
+            continue
+        i = start_of.get(s_)
+        if i is None or spans[i] != (s_, e_):
+            return {"invariant": "unit_broken_up_or_merged", "step": i or 0,
+                    "detail": {"mode": mode, "unit": repr(b), "situation": sit, "encoding": enc,
+                               "items_around": [repr(x) for x in items[max(0, (i or 0) - 1):(i or 0) + 3]],
+                               "context": repr(stream[max(0, s_ - 4):e_ + 6])}}
+        if mode == "bytes":
+            continue
+        # its name: the table name of this naming mode, or - for a character - the character itself
+        try:
+            ch = b.decode(enc)
+        except UnicodeDecodeError:
+            ch = None
+        is_char = ch is not None and len(ch) == 1
+        allowed = []
+        if b in table:
+            allowed.append(table[b])
+        if is_char:
+            allowed.append(ch)            # (a byte that is both a table entry and a character may be reported as either)
+        if not allowed:
+            continue                      # no name is prescribed for this sequence in this naming mode
+        if b in table and not is_char:
+            allowed = [table[b]]
+        if items[i] not in allowed:
+            return {"invariant": "keypress_misnamed", "step": i,
+                    "detail": {"mode": mode, "bytes": repr(b), "returned": repr(items[i]), "allowed": [repr(x) for x in allowed],
+                               "encoding": enc, "situation": sit}}
+    return None
 
 
 def _unit_class(b, enc, t):
@@ -359,7 +403,7 @@ def _run_mode(p, mode, keep_log):
                    None, keep_log)
     world, kernel = s.world, s.kernel
     res = {"violation": None, "error": None, "probes": world.probes, "faults": world.faults, "nsteps": 0,
-           "items": [], "stream": b"", "units": [], "read_bounds": set(), "left_in_buffer": b""}
+           "items": [], "stream": b"", "units": [], "read_bounds": set(), "left_in_buffer": b"", "fetched": []}
     world.probe({"utf-8": "enc_utf8", "latin-1": "enc_latin1", "ascii": "enc_ascii"}[cfg["encoding"]])
     try:
         _exec(p, mode, s, res)
@@ -398,6 +442,8 @@ def _exec(p, mode, s, res):
             except HarnessError:
                 raise
             except Exception as e:
+                if environment_artefact(e):
+                    raise HarnessError("stub-environment artefact: %s: %s" % (type(e).__name__, e))
                 import traceback
                 res["violation"] = {"invariant": "decoder_failed_on_valid_input", "step": len(res["items"]),
                                     "detail": {"exception": "%s: %s" % (type(e).__name__, e), "mode": mode,
@@ -436,6 +482,7 @@ def _exec(p, mode, s, res):
                 world.log.add("arrive", data)
                 if not fetch():
                     break
+                res["fetched"].append((len(res["items"]), len(stream)))
             else:
                 kernel.arrive(s.fd, data[:split_at])
                 world.log.add("arrive_part", data[:split_at])
@@ -453,5 +500,6 @@ def _exec(p, mode, s, res):
                     world.probe("partial_key_completed_later")
                 if not fetch():
                     break
+                res["fetched"].append((len(res["items"]), len(stream)))
         res["left_in_buffer"] = b""      # every arrival was delivered completely: nothing may be held back
     res["stream"] = bytes(stream)
